@@ -411,7 +411,10 @@ def call(ex, callee, args):
         return Agg("Pin", None, {0: args[0]})
     if base == "std::pin::Pin::as_mut":
         p = deref_all(ex, args[0])
-        return Agg("Pin", None, {0: p.fields[0]})
+        inner = p.fields[0]
+        if isinstance(inner, Agg) and inner.ty == "Box":
+            inner = unbox(ex, inner)
+        return Agg("Pin", None, {0: inner})
     if base == "std::boxed::Box::pin":
         model("Box::pin = heap cell")
         return Agg("Pin", None, {0: mkbox(args[0], "boxed-future")})
@@ -435,6 +438,22 @@ def call(ex, callee, args):
     if tt and tt[1] == "std::future::Future" and tt[2] == "poll":
         model("Future::poll: coroutine bodies run from their MIR; oracle futures through the harness")
         return poll(ex, tt[0], args[0], args[1])
+    if base in ("std::future::poll_fn", "core::future::poll_fn"):
+        model("future::poll_fn: polling calls the closure")
+        return Agg("PollFn", None, {0: args[0]})
+    if base.startswith("std::sync::Mutex::") or base.startswith("std::sync::PoisonError::") or base.startswith("std::sync::RwLock::"):
+        model("sync::Mutex as a plain cell (one evaluation at a time: no contention is modelled)")
+        if last == "new":
+            return Agg("Mutex", None, {0: args[0]})
+        if last in ("lock", "try_lock", "write", "read", "get_mut"):
+            r = args[0]
+            t = ex.read_ref(r)
+            inner = Ref(r.cell, r.path + (("f", None, 0),), True) if isinstance(t, Agg) and t.ty == "Mutex" else r
+            return inner if last == "get_mut" else ok(Agg("MutexGuard", None, {0: inner}))
+        if last == "into_inner":
+            v = args[0]
+            return v.fields[0] if isinstance(v, Agg) and v.ty in ("Mutex", "MutexGuard") else v
+        return NotImplemented
     if base in ("std::future::ready",):
         return Fut("ready", args[0])
 
@@ -522,6 +541,10 @@ def call(ex, callee, args):
             return v
         if isinstance(v, VecV):
             return args[0]
+    if tt and tt[1] in ("std::ops::Deref", "std::ops::DerefMut") and tt[2] in ("deref", "deref_mut") and "MutexGuard" in tt[0]:
+        g = deref_all(ex, args[0])
+        if isinstance(g, Agg) and g.ty == "MutexGuard":
+            return g.fields[0]
     if tt and tt[1] in ("std::ops::Deref", "std::ops::DerefMut") and tt[2] in ("deref", "deref_mut"):
         t0 = strip_generics(tt[0])
         if t0.endswith("::String"):
@@ -855,6 +878,19 @@ def call(ex, callee, args):
         if isinstance(v, VecV):
             model("Vec::is_empty")
             return BoolV(len(v.items) == 0) if v.items is not None else BoolV(vec_len(v.abs) == 0)
+    if base == "std::vec::Vec::retain_mut" or base == "std::vec::Vec::retain":
+        model("Vec::retain(_mut): sequential, keeps the elements for which the closure returns true, in order")
+        v = deref_all(ex, args[0])
+        if not isinstance(v, VecV) or v.items is None:
+            raise Unsupported("retain on an abstract Vec")
+        keep = []
+        for i in range(len(v.items)):
+            item_ref = Ref(args[0].cell, args[0].path + (("i", i),), True)
+            r = ex.call_closure(args[1], [item_ref])
+            if ex.choose([(True, r.t), (False, z3.Not(r.t))], "retain"):
+                keep.append(v.items[i])
+        v.items[:] = keep
+        return Agg("tuple")
     if base.startswith("std::vec::Vec::") and last in ("append", "swap_remove", "remove", "insert", "pop", "truncate", "clear", "drain", "retain"):
         if isinstance(args[0], Ref) and args[0].cell.ro:
             raise Panic(f"WRITE-TO-SHARED-STATE: Vec::{last} in read-only region {args[0].cell.name}")
@@ -1074,12 +1110,19 @@ def poll(ex, self_ty, pin, cx):
         raise Unsupported(f"poll on {pin}")
     target_ref = pin.fields[0]
     target = ex.read_ref(target_ref) if isinstance(target_ref, Ref) else target_ref
+    if isinstance(target, Agg) and target.ty == "PollFn":
+        return ex.call_closure(Ref(target_ref.cell, target_ref.path + (("f", None, 0),), True), [cx])
     if self_ty.startswith("{"):
         body = ex.prog.coroutine_body(self_ty)
         if body is None:
             raise Unsupported(f"no poll body for {self_ty}")
         return ex.call_func(body, [pin, cx])
     # Pin<Box<dyn Future>>: the pinned place holds either an oracle future or Pin { Box { coroutine } }
+    if isinstance(target, Agg) and target.ty.startswith("{coroutine"):
+        body = ex.prog.closure_body(target.ty)
+        if body is None:
+            raise Unsupported(f"no poll body for {target.ty}")
+        return ex.call_func(body, [Agg("Pin", None, {0: target_ref}), cx])
     if isinstance(target, Fut):
         return ex.h.poll_oracle(ex, target)
     if isinstance(target, Agg) and target.ty == "Pin":
